@@ -129,6 +129,7 @@ def ext_cases(out, tier, ity, p, rng, vmax, heavy):
     pre = lambda op: "%s %s %s ;" % (op, tier, k)  # noqa: E731
     mx = imax(ity)
     out.append(pre("ext_default"))
+    out.append(pre("strided_default"))
     combos = list(itertools.product(range(0, vmax + 1), repeat=nd))
     for v in combos:
         out.append("%s 0 %s" % (pre("ext_dyn"), lst(v)))
